@@ -367,12 +367,14 @@ def runLive07 (kv : List (String × String)) : IO Res := do
   -- (4) the window around the crash instruction pointer
   match lc.cfg.crash with
   | some c =>
-    if lc.threads.any (fun t => t.tid == c.tid) then
+    let _ := c
+    if lc.threads.any (fun t => t.tid == lc.cfg.blamed) then
       let ip := greg lc.cfg.gregs REG_RIP
       let ms := aggregate none lc.maps
       match ipWindow ms ip with
       | some (lo, len) =>
         tags := "ipwindow.expected" :: tags
+        if len < 256 then tags := "ipwindow.clipped" :: tags
         if !ml.any (fun m => m.start == lo && m.size == len) then
           return .propfail s!"no memory region [{lo},+{len}) around the crash instruction pointer {ip}" tags
       | none => tags := "ip.unmapped" :: tags
